@@ -95,6 +95,25 @@ Fixpoint own_indents (l : list pattern_element) : list nat :=
 (* the first line does not start with a space or a line break, the last line does not end with one *)
 Definition ml_first_ok (els : list pattern_element) : bool :=
   match els with TextElement (b :: _) :: _ => negb (N.eqb b 32) && negb (N.eqb b 10) | _ => true end.
+(* the weaker condition for a value in block form: the first line may be indented (a first text that starts with
+   spaces); it is a line like the others then: not blank, and after its indentation it does not start with . [ *
+   (or it is the indentation of a placeable) *)
+Definition ml_first_nolf (els : list pattern_element) : bool :=
+  match els with TextElement (b :: _) :: _ => negb (N.eqb b 10) | _ => true end.
+Definition first_sp (els : list pattern_element) : bool :=
+  match els with TextElement (b :: _) :: _ => N.eqb b 32 | _ => false end.
+Definition first_line_ok (els : list pattern_element) : bool :=
+  match els with
+  | TextElement v :: _ =>
+      match lines_of v with
+      | l0 :: rest => if is_blank_line l0 then (match rest with [] => true | _ => false end) else line_start_ok l0
+      | [] => true
+      end
+  | _ => true
+  end.
+Lemma ml_first_ok_split els : ml_first_ok els = ml_first_nolf els && negb (first_sp els).
+Proof. destruct els as [|[[|b t]|e] r]; try reflexivity. cbn [ml_first_ok ml_first_nolf first_sp]. apply andb_comm. Qed.
+
 Definition ml_last_ok (els : list pattern_element) : bool :=
   match rev els with
   | TextElement v :: _ => negb (N.eqb (last v 0%N) 32) && negb (N.eqb (last v 0%N) 10)
@@ -114,15 +133,32 @@ Definition ml_pattern (p : pattern) : bool :=
       (negb (has_lf els) || existsb (Nat.eqb 0) (own_indents els))
   end.
 
-Definition ml_attribute (a : attribute) : bool := wf_identifier (attr_id a) && ml_pattern (attr_value a).
+(* a value (of a message, a term, an attribute, a variant): a value whose continuation lines are ALL indented deeper than its
+   first line (no line at indentation 0 after the first) is faithful only in BLOCK form (value on the lines after
+   the '=', where the first line takes part in the common indentation); Render.v prints such a value in block form
+   (needs_block) and so does the serializer; its first byte must be one that may start a block line.  The FIRST
+   line may be indented as well (first_sp): block form only, the line is like a continuation line (first_line_ok), and
+   some other line is not indented.  The same
+   holds for the value of a variant (after the key).  ml_pattern is the stricter class of the values that may be
+   printed in either form. *)
+Definition wl_pattern (p : pattern) : bool :=
+  match p with
+  | Pattern els =>
+      negb (match els with [] => true | _ => false end) && ml_elements els false &&
+      ml_first_nolf els && ml_last_ok els &&
+      (if first_sp els then first_line_ok els && existsb (Nat.eqb 0) (own_indents els)
+       else negb (has_lf els) || existsb (Nat.eqb 0) (own_indents els) || first_byte_ok_for_block (Pattern els))
+  end.
+
+Definition ml_attribute (a : attribute) : bool := wf_identifier (attr_id a) && wl_pattern (attr_value a).
 
 Definition ml_plain_entry (e : entry) : bool :=
   match e with
   | CommentEntry c | GroupComment c | ResourceComment c => wide_comment c
-  | Message id (Some p) attrs None => wf_identifier id && ml_pattern p && forallb ml_attribute attrs
+  | Message id (Some p) attrs None => wf_identifier id && wl_pattern p && forallb ml_attribute attrs
   | Message id None attrs None =>
       wf_identifier id && negb (match attrs with [] => true | _ => false end) && forallb ml_attribute attrs
-  | Term id p attrs None => wf_identifier id && ml_pattern p && forallb ml_attribute attrs
+  | Term id p attrs None => wf_identifier id && wl_pattern p && forallb ml_attribute attrs
   | _ => false
   end.
 
@@ -221,8 +257,8 @@ Qed.
 Lemma render_value_ml_layout ind els cs : ml_elements els false = true -> 1 <= ind ->
   exists V cs', render_value ind (Pattern els) cs = (V, cs') /\ ml_value_layout els V.
 Proof.
-  intros Hv Hind. unfold render_value. unfold rbind at 1. destruct (choose 3 cs) as [block cs1].
-  destruct (Nat.eqb block 2 && first_byte_ok_for_block (Pattern els)) eqn:Eb.
+  intros Hv Hind. unfold render_value, render_value_with. unfold rbind at 1. destruct (choose 3 cs) as [block cs1].
+  destruct ((Nat.eqb block 2 || needs_block (Pattern els)) && first_byte_ok_for_block (Pattern els)) eqn:Eb.
   - apply andb_prop in Eb as [_ Hok].
     destruct (blank_inline_opt_spec cs1) as [k [cs2 E2]]. rewrite (rbind_eq _ _ _ _ _ E2).
     destruct (eol_spec' cs2) as [x [cs3 [E3 Hx]]]. rewrite (rbind_eq _ _ _ _ _ E3).
@@ -1522,35 +1558,43 @@ Qed.
 
 
 (* ---- a block value: the first line stands at the start of a line ---- *)
+Lemma ml_first_ok_nolf els : ml_first_ok els = true -> ml_first_nolf els = true /\ first_sp els = false.
+Proof. rewrite ml_first_ok_split. intros H. apply andb_prop in H as [H1 H2]. apply negb_true_iff in H2. auto. Qed.
+
+Lemma first_ok_line_ok els : ml_first_ok els = true -> first_byte_ok_for_block (Pattern els) = true -> first_line_ok els = true.
+Proof.
+  intros Hf Hok. destruct els as [|[v|e] r]; try reflexivity. cbn [first_line_ok].
+  destruct (lines_of v) as [|l0 rest] eqn:El; [reflexivity|]. pose proof (lines_of_join v l0 rest El) as Ev.
+  destruct v as [|b t].
+  - destruct l0; [|discriminate Ev]. destruct rest; [reflexivity | discriminate Ev].
+  - cbn [ml_first_ok] in Hf. apply andb_prop in Hf as [H32 H10]. apply negb_true_iff in H32, H10.
+    destruct l0 as [|y l0'].
+    { cbn [app] in Ev. destruct rest; [discriminate Ev|]. injection Ev as -> _. rewrite N.eqb_refl in H10. discriminate. }
+    cbn [app] in Ev. injection Ev as <- _. cbn [is_blank_line forallb]. rewrite N.eqb_sym, H32. cbn [andb].
+    unfold line_start_ok. cbn [leading_spaces]. rewrite H32. cbn [skipn]. exact Hok.
+Qed.
+
 Lemma ml_loop_block els L : ml_line_layout B els L ->
   forall T used cc nx p n,
-  els <> [] -> ml_elements els false = true -> ends_ok els -> ml_first_ok els = true ->
-  first_byte_ok_for_block (Pattern els) = true ->
+  els <> [] -> ml_elements els false = true -> ends_ok els -> ml_first_nolf els = true -> first_line_ok els = true ->
+  (first_sp els = false \/ existsb (Nat.eqb 0) (own_indents els) = true) ->
   after_value T used cc nx ->
   at_ bs p (sp B ++ L ++ T) -> 3 * length (sp B ++ L ++ T) + 9 <= n ->
   completes n (st_of [] None None LineStart) p (used + (length (sp B ++ L) + p)) (stream els).
 Proof.
-  intros HL T used cc nx p n Hne Hs Hends Hfirst Hok HT H Hn. pose proof (after_value_cc _ _ _ _ HT) as Hcc.
+  intros HL T used cc nx p n Hne Hs Hends Hnolf Hlead Hhit0 HT H Hn. pose proof (after_value_cc _ _ _ _ HT) as Hcc.
   destruct HL as [| v l0 rest r TL Lr Elines HTL HLr | e b1 b2 X r Lr Hb1 Hb2 HX HLr]; [congruence| |].
-  - (* the first element is a text: its first line is a line like the others, not indented beyond B *)
+  - (* the first element is a text: its first line is a line like the others; it may be indented beyond B *)
     cbn [ml_elements] in Hs. apply andb_prop in Hs as [Hs Hr]. apply andb_prop in Hs as [_ Hv].
     unfold ml_text in Hv. rewrite Elines in Hv. apply andb_prop in Hv as [Hv Hrest]. apply andb_prop in Hv as [Hvne Hl0].
     pose proof (lines_of_join v l0 rest Elines) as Ev.
-    (* the first line is not blank and starts with a byte that continues a pattern *)
-    assert (Hv0 : exists b t, v = b :: t /\ N.eqb b 32 = false /\ N.eqb b 10 = false).
-    { destruct v as [|b t]; [discriminate Hvne|]. cbn [ml_first_ok] in Hfirst. apply andb_prop in Hfirst as [H1 H2].
-      exists b, t. split; [reflexivity|]. split; apply negb_true_iff; assumption. }
-    destruct Hv0 as (b & t & Evb & Hb32 & Hb10).
-    assert (Hl0b : exists t0, l0 = b :: t0).
-    { rewrite Evb in Ev. destruct l0 as [|y l0']; [|cbn [app] in Ev; injection Ev as -> _; eexists; reflexivity].
-      cbn [app] in Ev. destruct rest; [discriminate Ev|]. injection Ev as -> _. rewrite N.eqb_refl in Hb10. discriminate. }
-    destruct Hl0b as (t0 & El0).
-    assert (Hnb0 : is_blank_line l0 = false).
-    { rewrite El0. cbn [is_blank_line forallb]. rewrite N.eqb_sym, Hb32. reflexivity. }
-    assert (Hls0 : leading_spaces l0 = 0) by (rewrite El0; cbn [leading_spaces]; rewrite Hb32; reflexivity).
-    assert (Hok0 : line_start_ok l0 = true).
-    { unfold line_start_ok. rewrite Hls0. cbn [skipn]. rewrite El0.
-      rewrite Evb in Hok. cbn [first_byte_ok_for_block pattern_elements] in Hok. exact Hok. }
+    cbn [first_line_ok] in Hlead. rewrite Elines in Hlead.
+    (* if the first line is not indented, the common indentation is found at once; else later *)
+    assert (Hk0 : leading_spaces l0 = 0 \/ existsb (Nat.eqb 0) (own_indents (TextElement v :: r)) = true).
+    { destruct Hhit0 as [Hsp | Hh]; [left | right; exact Hh].
+      destruct v as [|b t]; [discriminate Hvne|]. cbn [first_sp] in Hsp. cbn [ml_first_nolf] in Hnolf. apply negb_true_iff in Hnolf.
+      destruct l0 as [|y l0']; [|cbn [app] in Ev; injection Ev as -> _; cbn [leading_spaces]; rewrite Hsp; reflexivity].
+      reflexivity. }
     set (cont := continues_after r) in *.
     set (Rest := Lr ++ T).
     set (pfin := used + (length (sp B ++ l0 ++ TL ++ Lr) + p)).
@@ -1589,39 +1633,73 @@ Proof.
     { unfold Rest. rewrite !app_length, sp_length in Hn. rewrite !app_length. nlia. }
     assert (HccR : cc <= length Rest) by (unfold Rest; rewrite app_length; nlia).
     assert (Hacc0 : acc [] []) by constructor.
-    assert (Hci0 : ci_min None (B + leading_spaces l0) = Some B) by (rewrite Hls0, Nat.add_0_r; reflexivity).
+    assert (Hci0 : ci_min None (B + leading_spaces l0) = Some (B + leading_spaces l0)) by reflexivity.
+    assert (Hge0 : ci_ge (Some (B + leading_spaces l0))) by (cbn [ci_ge]; nlia).
     destruct rest as [|l1 rest'].
     + inversion HTL; subst TL. cbn [app length] in *. rewrite app_nil_r in Ev. subst l0.
+      assert (Hown : own_indents (TextElement v :: r) = own_indents r).
+      { cbn [own_indents]. rewrite Elines. reflexivity. }
+      rewrite Hown in Hk0.
       destruct Hend as [(Hcont & (rest'' & ERest) & K) | (Hcont & HTR & HSr & HnoR)].
       * destruct n as [|n]; [nlia|]. rewrite ERest in HL.
-        destruct (ls_text_place_reach v rest'' [] [] None None p n Hl0 Hnb0 Hok0 HL Hacc0) as (Hreach & Hacc' & Hrne).
-        apply (completes_reach _ _ _ _ _ _ _ _ Hreach).
-        apply (completes_stream pfin _ _ _ _ (stream_raws ([] ++ [Some (RText v)]) ++ stream r));
-          [unfold stream_raws; cbn [app flat_map stream_raw]; rewrite app_nil_r; reflexivity|].
-        apply K.
-        -- exact Hacc'.
-        -- constructor; [exact Hrne | constructor].
-        -- rewrite Hci0. cbn. nlia.
-        -- left. exact Hci0.
-        -- cbn [length]. nlia.
-        -- rewrite app_nil_r in HRest.
-           replace (length v + (B + p)) with (length (sp B ++ v) + p) by (rewrite app_length, sp_length; nlia). exact HRest.
-        -- nlia.
+        destruct (is_blank_line v) eqn:Eblank.
+        -- (* the text is the indentation of the placeable *)
+           pose proof (blank_all_spaces v Eblank) as El.
+           assert (H'' : at_ bs p (sp B ++ sp (length v) ++ 123%N :: rest'')) by (rewrite <- El; exact HL).
+           destruct (ls_indent_reach (length v) rest'' [] [] None None p n H'' Hacc0) as [Hreach Hacc'].
+           apply (completes_reach _ _ _ _ _ _ _ _ Hreach).
+           assert (Hlenv : 1 <= length v) by (destruct v; [discriminate Hvne | cbn [length]; nlia]).
+           apply (completes_stream pfin _ _ _ _
+                    (stream_raws ([] ++ [match length v with 0 => None | S _ => Some (RText (sp (length v))) end]) ++ stream r)).
+           { unfold stream_raws. cbn [app flat_map]. rewrite app_nil_r. destruct (length v) as [|k0] eqn:E0; [nlia|].
+             cbn [stream_raw]. rewrite <- El. reflexivity. }
+           apply K.
+           ++ exact Hacc'.
+           ++ constructor; [apply raw_ne_sp | constructor].
+           ++ cbn [ci_min ci_ge]. nlia.
+           ++ right. destruct Hk0 as [Hk0 | Hk0]; [|exact Hk0]. exfalso. rewrite El in Hk0.
+              destruct (length v); [nlia|]. cbn [sp repeat leading_spaces] in Hk0. rewrite N.eqb_refl in Hk0. discriminate Hk0.
+           ++ cbn [length]. nlia.
+           ++ apply at_app in H''. rewrite sp_length in H''. apply at_app in H''. rewrite sp_length in H''.
+              rewrite ERest.
+              replace (B + length v + p) with (length v + (B + p)) by nlia. exact H''.
+           ++ nlia.
+        -- destruct (ls_text_place_reach v rest'' [] [] None None p n Hl0 Eblank Hlead HL Hacc0) as (Hreach & Hacc' & Hrne).
+           apply (completes_reach _ _ _ _ _ _ _ _ Hreach).
+           apply (completes_stream pfin _ _ _ _ (stream_raws ([] ++ [Some (RText v)]) ++ stream r));
+             [unfold stream_raws; cbn [app flat_map stream_raw]; rewrite app_nil_r; reflexivity|].
+           apply K.
+           ++ exact Hacc'.
+           ++ constructor; [exact Hrne | constructor].
+           ++ rewrite Hci0. exact Hge0.
+           ++ destruct Hk0 as [Hk0 | Hk0]; [left; rewrite Hci0, Hk0, Nat.add_0_r; reflexivity | right; exact Hk0].
+           ++ cbn [length]. nlia.
+           ++ rewrite app_nil_r in HRest.
+              replace (length v + (B + p)) with (length (sp B ++ v) + p) by (rewrite app_length, sp_length; nlia). exact HRest.
+           ++ nlia.
       * assert (Er : r = []) by (destruct r; [reflexivity | discriminate Hcont]). subst r.
         inversion HLr; subst Lr. rewrite HSr, app_nil_r.
-        cbn [ends_ok] in Hends. rewrite Elines in Hends. cbn [last] in Hends. destruct Hends as [Hlastv _].
+        cbn [ends_ok] in Hends. rewrite Elines in Hends. cbn [last] in Hends. destruct Hends as [Hlastv Hnbv].
+        assert (Hls0 : leading_spaces v = 0) by (destruct Hk0 as [Hk0 | Hk0]; [exact Hk0 | discriminate Hk0]).
+        assert (Hnb0 : is_blank_line v = false).
+        { destruct (is_blank_line v) eqn:Eb; [|reflexivity]. exfalso. pose proof (blank_all_spaces v Eb) as El. rewrite El in Hls0.
+          destruct v as [|b0 t0]; [discriminate Hvne|]. cbn [length sp repeat leading_spaces] in Hls0. rewrite N.eqb_refl in Hls0. discriminate Hls0. }
+        rewrite Hnb0 in Hlead.
         rewrite Epfin. rewrite !app_nil_r.
-        assert (Hc := ls_text_final v T used cc nx [] [] None None p n Hl0 Hnb0 Hok0 Hlastv HT).
+        assert (Hc := ls_text_final v T used cc nx [] [] None None p n Hl0 Hnb0 Hlead Hlastv HT).
         unfold Rest in HL, HnL. cbn [app] in HL, HnL.
-        specialize (Hc HL Hci0 Hacc0 (Forall_nil _) ltac:(nlia)). exact Hc.
-    + destruct (cont_layout_cons cont Rest pfin (stream r) _ used cc nx Hend l1 rest' TL HTL) as (x & body & ETL & Hx & Hscb).
+        specialize (Hc HL ltac:(rewrite Hci0, Hls0, Nat.add_0_r; reflexivity) Hacc0 (Forall_nil _) ltac:(nlia)). exact Hc.
+    + (* several lines: the first is not blank *)
+      assert (Hnb0 : is_blank_line l0 = false) by (destruct (is_blank_line l0); [discriminate Hlead | reflexivity]).
+      rewrite Hnb0 in Hlead.
+      destruct (cont_layout_cons cont Rest pfin (stream r) _ used cc nx Hend l1 rest' TL HTL) as (x & body & ETL & Hx & Hscb).
       subst TL.
       assert (Hlenx : 1 <= length x) by (destruct Hx as [-> | ->]; cbn; nlia).
       assert (Hvs : map (@inl N expression) v = map inl l0 ++ [inl 10%N] ++ map inl (jl (l1 :: rest'))).
       { rewrite Ev, map_app. reflexivity. }
       rewrite Hvs. clear Hvs.
       rewrite <- !app_assoc in HL.
-      destruct (ls_text_eol_reach l0 x (body ++ Rest) [] [] None None p Hl0 Hnb0 Hok0 Hx HL Hscb Hacc0)
+      destruct (ls_text_eol_reach l0 x (body ++ Rest) [] [] None None p Hl0 Hnb0 Hlead Hx HL Hscb Hacc0)
         as (k & phs' & raws' & Hk & Hacc' & Hstr & Hrne & Hreach).
       rewrite !app_length in HnL.
       apply (completes_k' k n _ p (n - k) _ _ pfin _ ltac:(nlia) Hreach eq_refl).
@@ -1629,7 +1707,7 @@ Proof.
         [cbn [app]; rewrite Hstr, map_app, <- !app_assoc; reflexivity|].
       rewrite Hci0.
       apply (lines_complete cont Rest pfin (stream r) _ used cc nx Hend (l1 :: rest') (x ++ body) HTL x body eq_refl Hx
-                            phs' ([] ++ raws') (Some (length (@nil placeholder))) (Some B)).
+                            phs' ([] ++ raws') (Some (length (@nil placeholder))) (Some (B + leading_spaces l0))).
       * exact Hrest.
       * intros Hc. assert (Er : r = []) by (destruct r; [reflexivity | discriminate Hc]). subst r.
         cbn [ends_ok] in Hends. rewrite Elines in Hends. exact Hends.
@@ -1637,8 +1715,10 @@ Proof.
         inversion HLr; subst Lr. rewrite Epfin. rewrite !app_length, sp_length. cbn [length]. nlia.
       * exact Hacc'.
       * exact Hrne.
-      * cbn. nlia.
-      * left. reflexivity.
+      * exact Hge0.
+      * destruct Hk0 as [Hk0 | Hk0]; [left; rewrite Hk0, Nat.add_0_r; reflexivity|].
+        cbn [own_indents] in Hk0. rewrite Elines in Hk0. cbn [tl] in Hk0. fold cont in Hk0.
+        rewrite existsb_app in Hk0. apply orb_prop in Hk0 as [Hk0 | Hk0]; [right; left; exact Hk0 | right; right; exact Hk0].
       * replace (length (sp B ++ l0 ++ x) + p) with (length x + (length l0 + (length (sp B) + p))) by (rewrite !app_length; nlia).
         apply at_app in HL. apply at_app in HL. apply at_app in HL. exact HL.
       * rewrite app_length. nlia.
@@ -1903,6 +1983,35 @@ Proof.
   - cbn [app]. split; [reflexivity | split; reflexivity].
 Qed.
 
+(* the first line of a block value is not a blank line *)
+Lemma ml_block_head B els L T : ml_line_layout B els L -> els <> [] -> ml_elements els false = true ->
+  ml_first_nolf els = true -> first_line_ok els = true -> ml_last_ok els = true -> no_blank_line_head (sp B ++ L ++ T).
+Proof.
+  intros HL Hne Hs Hnolf Hlead Hlast. destruct HL as [| v l0 rest r TL L El HTL HL | i b1 b2 r L Hb1 Hb2 HL]; [congruence| |].
+  - cbn [ml_elements] in Hs. apply andb_prop in Hs as [Hs Hr]. apply andb_prop in Hs as [_ Hv].
+    unfold ml_text in Hv. rewrite El in Hv. apply andb_prop in Hv as [Hv Hrest]. apply andb_prop in Hv as [Hvne Hl0].
+    cbn [first_line_ok] in Hlead. rewrite El in Hlead.
+    destruct (is_blank_line l0) eqn:Eb.
+    + destruct rest; [|discriminate Hlead]. inversion HTL; subst TL.
+      pose proof (lines_of_join v l0 [] El) as Ev. cbn [jl] in Ev. rewrite app_nil_r in Ev. subst l0.
+      destruct (ml_elements_after_text r Hr) as [-> | (e & r' & -> & He & Hr')].
+      * (* a pattern that is a blank text only: its last byte is a space *)
+        exfalso. cbn [ml_last_ok rev app] in Hlast. apply andb_prop in Hlast as [H32 _]. apply negb_true_iff in H32.
+        assert (Hvne' : v <> []) by (destruct v; [discriminate Hvne | discriminate]).
+        unfold is_blank_line in Eb. rewrite forallb_forall in Eb. specialize (Eb _ (last_in v 0%N Hvne')).
+        rewrite N.eqb_sym in Eb. congruence.
+      * inversion HL; subst.
+        rewrite (blank_all_spaces v Eb). cbn [app]. rewrite <- !app_assoc.
+        rewrite (app_assoc (sp B)), sp_add. cbn [app].
+        apply no_blank_line_head_sp; reflexivity.
+    + destruct (cont_line_facts l0 Hl0 Eb Hlead) as (b & t & El0 & H32 & _ & Htl & _).
+      unfold text_line in Htl. cbn [forallb] in Htl. apply andb_prop in Htl as [Hb _].
+      apply wf_text_byte_spec in Hb as (_ & _ & H13 & H10).
+      rewrite El0. rewrite <- !app_assoc. rewrite (app_assoc (sp B)), sp_add. cbn [app].
+      apply no_blank_line_head_sp; [exact H32 | apply no_eol_head_byte; assumption].
+  - cbn [app]. apply no_blank_line_head_sp; reflexivity.
+Qed.
+
 (* get_placeable on the layouts of the class, on every input *)
 Hypothesis Hplace_all : forall bs e X b1 b2 rest p n, eok e = true -> etext e X -> all_blank b1 -> all_blank b2 ->
   at_ bs p (b1 ++ X ++ b2 ++ 125%N :: rest) -> 3 * length (b1 ++ X ++ b2 ++ 125%N :: rest) + 8 <= n ->
@@ -1942,7 +2051,8 @@ Proof.
     assert (Hnb : no_blank_line_head (sp B ++ L ++ T)) by (apply no_blank_line_head_sp; assumption).
     pose proof (at_app _ _ _ _ H2) as H3.
     set (p0 := length BL + (length x + (k + p))) in *.
-    destruct (ml_loop_block bs B HB (Hplace_all bs) els L HL T used c nx p0 n Hne Hs Hends Hf Hok HT H3
+    destruct (ml_loop_block bs B HB (Hplace_all bs) els L HL T used c nx p0 n Hne Hs Hends
+                (proj1 (ml_first_ok_nolf els Hf)) (first_ok_line_ok els Hf Hok) (or_introl (proj2 (ml_first_ok_nolf els Hf))) HT H3
                 ltac:(rewrite !app_length, !sp_length in Hn; rewrite !app_length, sp_length; nlia)) as (els' & E & Hst & Hnee).
     exists els'. split; [|split; [apply (stream_jrel els' els Hs Hst Hnee) | split; [exact Hnee | exact Hst]]].
     step (skip_blank_inline_sp bs p k _ H Hhx).
@@ -1965,12 +2075,112 @@ Proof.
     intros T. destruct Hx as [-> | ->]; reflexivity.
 Qed.
 
+(* ---- the values of messages, terms and attributes (wl_pattern): the inline layout only if some continuation
+   line is not indented ---- *)
+
+Lemma wl_pattern_parts els : wl_pattern (Pattern els) = true ->
+  els <> [] /\ ml_elements els false = true /\ ml_first_nolf els = true /\ ml_last_ok els = true /\
+  ((ml_first_ok els = true /\
+    (has_lf els = false \/ existsb (Nat.eqb 0) (own_indents els) = true \/ first_byte_ok_for_block (Pattern els) = true)) \/
+   (first_sp els = true /\ first_line_ok els = true /\ existsb (Nat.eqb 0) (own_indents els) = true)).
+Proof.
+  unfold wl_pattern. intros H. apply andb_prop in H as [H H5]. apply andb_prop in H as [H H4].
+  apply andb_prop in H as [H H3]. apply andb_prop in H as [H1 H2].
+  split; [destruct els; [discriminate H1 | discriminate]|]. repeat (split; [assumption|]).
+  destruct (first_sp els) eqn:Esp.
+  - right. apply andb_prop in H5 as [H5 H6]. auto.
+  - left. split; [rewrite ml_first_ok_split, H3, Esp; reflexivity|].
+    apply orb_prop in H5 as [H5 | H5]; [apply orb_prop in H5 as [H5 | H5]; [left; apply negb_true_iff, H5 | right; left; exact H5] | right; right; exact H5].
+Qed.
+
+Lemma ml_wl_pattern p : ml_pattern p = true -> wl_pattern p = true.
+Proof.
+  destruct p as [els]. unfold ml_pattern, wl_pattern. intros H. apply andb_prop in H as [H H5]. apply andb_prop in H as [H H4].
+  apply andb_prop in H as [H H3]. rewrite H, H4. rewrite ml_first_ok_split in H3. apply andb_prop in H3 as [H3 H3'].
+  apply negb_true_iff in H3'. rewrite H3, H3', H5. reflexivity.
+Qed.
+
+Inductive wl_value_layout (els : list pattern_element) : bytes -> Prop :=
+| wvl_inline k B L : ml_first_ok els = true -> (has_lf els = false \/ existsb (Nat.eqb 0) (own_indents els) = true) ->
+    1 <= B -> ml_line_layout B els L -> wl_value_layout els (sp k ++ L)
+| wvl_block k x c BL B L :
+    first_byte_ok_for_block (Pattern els) = true ->
+    is_eol_bytes x -> blank_lines_of c BL -> 1 <= B -> ml_line_layout B els L ->
+    wl_value_layout els (sp k ++ x ++ BL ++ sp B ++ L).
+
+Lemma ml_wl_layout els V : ml_pattern (Pattern els) = true -> ml_value_layout els V -> wl_value_layout els V.
+Proof.
+  intros Hp HV. destruct (ml_pattern_parts els Hp) as (_ & _ & Hf & _ & Hhit).
+  destruct HV as [k B L HB HL | k x c' BL B L Hok Hx HBL HB HL]; [apply (wvl_inline els k B L) | apply (wvl_block els k x c' BL B L)]; assumption.
+Qed.
+
+Lemma get_pattern_wl bs els V T used c nx p n :
+  wl_pattern (Pattern els) = true -> wl_value_layout els V -> after_value T used c nx -> at_ bs p (V ++ T) ->
+  3 * length (V ++ T) + 12 <= n ->
+  exists els', get_pattern bs n p = Ok (Some (Pattern els')) (used + (length V + p)) /\ srel els' els.
+Proof.
+  intros Hp HV HT H Hn. destruct (wl_pattern_parts els Hp) as (Hne & Hs & Hnolf & Hl & Hcase).
+  pose proof (ends_ok_of_last els false Hs Hl) as Hends.
+  destruct n as [|n]; [nlia|]. rewrite get_pattern_S.
+  destruct HV as [k B L Hf Hhit HB HL | k x c' BL B L Hok Hx HBL HB HL].
+  - destruct (ml_line_layout_head B els L false T HL Hne Hs Hf) as (Hh1 & Hh2 & Hh3).
+    rewrite <- app_assoc in H.
+    pose proof (at_app _ _ _ _ H) as H1. rewrite sp_length in H1.
+    assert (Hloop : completes bs n (st_of [] None None InitialLineStart) (k + p) (used + (length L + (k + p))) (stream els)).
+    { destruct Hhit as [Hno | Hhit].
+      - apply (ol_loop bs B HB (Hplace_all bs) els L HL Hno false T used c nx [] [] None InitialLineStart (k + p) n
+                 Hs Hends HT eq_refl (acc_nil bs B) (Forall_nil _) (Forall_nil _) ltac:(intros E; congruence) H1).
+        rewrite !app_length, sp_length in Hn. rewrite app_length. nlia.
+      - apply (ml_loop bs B HB (Hplace_all bs) els L HL false T used c nx [] [] None None InitialLineStart (k + p) n
+                 Hs Hends HT eq_refl (acc_nil bs B) (Forall_nil _) Logic.I (or_intror Hhit) ltac:(intros E; congruence) H1).
+        rewrite !app_length, sp_length in Hn. rewrite app_length. nlia. }
+    destruct Hloop as (els' & E & Hst & Hnee).
+    exists els'. split; [|split; [apply (stream_jrel els' els Hs Hst Hnee) | split; [exact Hnee | exact Hst]]].
+    step (skip_blank_inline_sp bs p k (L ++ T) H Hh1).
+    step (skip_eol_none bs (k + p) (L ++ T) H1 Hh2). rewrite bind_ret.
+    change (PState [] 0 None None InitialLineStart) with (st_of [] None None InitialLineStart).
+    rewrite E. f_equal. rewrite app_length, sp_length. nlia.
+  - assert (Hlead : first_line_ok els = true /\ (first_sp els = false \/ existsb (Nat.eqb 0) (own_indents els) = true)).
+    { destruct Hcase as [[Hf _] | (_ & Hlead & Hhit)]; [|split; [exact Hlead | right; exact Hhit]].
+      split; [apply (first_ok_line_ok els Hf Hok) | left; apply (ml_first_ok_nolf els Hf)]. }
+    destruct Hlead as [Hlead Hhit0].
+    rewrite <- !app_assoc in H.
+    assert (Hhx : head_not is_space (x ++ BL ++ sp B ++ L ++ T)) by (destruct Hx as [-> | ->]; reflexivity).
+    pose proof (at_app _ _ _ _ H) as H1. rewrite sp_length in H1.
+    pose proof (at_app _ _ _ _ H1) as H2.
+    assert (Hnb : no_blank_line_head (sp B ++ L ++ T)) by (apply (ml_block_head B els L T HL Hne Hs Hnolf Hlead Hl)).
+    pose proof (at_app _ _ _ _ H2) as H3.
+    set (p0 := length BL + (length x + (k + p))) in *.
+    destruct (ml_loop_block bs B HB (Hplace_all bs) els L HL T used c nx p0 n Hne Hs Hends
+                Hnolf Hlead Hhit0 HT H3
+                ltac:(rewrite !app_length, !sp_length in Hn; rewrite !app_length, sp_length; nlia)) as (els' & E & Hst & Hnee).
+    exists els'. split; [|split; [apply (stream_jrel els' els Hs Hst Hnee) | split; [exact Hnee | exact Hst]]].
+    step (skip_blank_inline_sp bs p k _ H Hhx).
+    step (skip_eol_eol bs (k + p) x _ H1 Hx).
+    rewrite bind_assoc.
+    step (skip_blank_block_lines bs _ c' BL _ H2 HBL Hnb). rewrite bind_ret.
+    change (PState [] 0 None None LineStart) with (st_of [] None None LineStart).
+    unfold p0 in E. rewrite E. f_equal. unfold p0. rewrite !app_length, !sp_length. nlia.
+Qed.
+
+Lemma wl_value_layout_strip els V : wl_pattern (Pattern els) = true -> wl_value_layout els V ->
+  exists k V0, V = sp k ++ V0 /\ wl_value_layout els (sp 0 ++ V0) /\ forall T, head_not is_space (V0 ++ T).
+Proof.
+  intros Hp HV. destruct (wl_pattern_parts els Hp) as (Hne & Hs & Hnolf & _).
+  destruct HV as [k B L Hf Hhit HB HL | k x c' BL B L Hok Hx HBL HB HL].
+  - exists k, L. split; [reflexivity|]. split; [apply (wvl_inline els 0 B L Hf Hhit HB HL)|].
+    intros T. apply (ml_line_layout_head B els L false T HL Hne Hs Hf).
+  - exists k, (x ++ BL ++ sp B ++ L). split; [reflexivity|]. split; [apply (wvl_block els 0 x c' BL B L); assumption|].
+    intros T. destruct Hx as [-> | ->]; reflexivity.
+Qed.
+
+
 (* ---------------------------------------------------------------------------------------------- *)
 (* 4. parse (render cs t) on the fragment                                                           *)
 
-Definition ml_pok (els : list pattern_element) : bool := ml_pattern (Pattern els).
+Definition ml_pok (els : list pattern_element) : bool := wl_pattern (Pattern els).
 
-Lemma ml_pattern_g p : g_pattern ml_pok p = ml_pattern p.
+Lemma ml_pattern_g p : g_pattern ml_pok p = wl_pattern p.
 Proof. destruct p; reflexivity. Qed.
 Lemma ml_attributes_g attrs : forallb (g_attribute ml_pok) attrs = forallb ml_attribute attrs.
 Proof.
@@ -1985,27 +2195,6 @@ Lemma ml_resource_g t : g_resource ml_pok t = ml_resource t.
 Proof.
   induction t as [|e r IH]; [reflexivity|]. unfold g_resource, ml_resource in *. cbn [forallb]. rewrite IH.
   unfold g_entry, ml_entry. rewrite ml_plain_entry_g. reflexivity.
-Qed.
-
-(* C02 on the fragment: the printed text parses, without errors, to a tree that joins to the printed one;
-   first with all that is known of the parser's tree *)
-Theorem parse_render_ml_split cs t : ml_resource t = true -> last_comment_ok t = true ->
-  exists t', parse (render cs t) = Done (t', []) /\ Forall2 (rel_entry srel) t' t.
-Proof.
-  intros Ht Hlast. apply (g_parse_render_rel ml_pok ml_value_layout srel cs t).
-  - intros ind els cs0 Hp Hind. destruct (ml_pattern_parts els Hp) as (_ & Hs & _).
-    apply (render_value_ml_layout ind els cs0 Hs Hind).
-  - intros bs els V T used c nx p n Hp. apply (get_pattern_ml bs els V T used c nx p n Hp).
-  - intros els V Hp. apply (ml_value_layout_strip els V Hp).
-  - rewrite ml_resource_g. exact Ht.
-  - exact Hlast.
-Qed.
-
-Theorem parse_render_ml cs t : ml_resource t = true -> last_comment_ok t = true ->
-  exists t', parse (render cs t) = Done (t', []) /\ map join_entry t' = t.
-Proof.
-  intros Ht Hlast. destruct (parse_render_ml_split cs t Ht Hlast) as (t' & E & Hrel). exists t'. split; [exact E|].
-  apply jrel_entries. apply (rel_entries_mono srel jrel t' t); [intros x y [H _]; exact H | exact Hrel].
 Qed.
 
 (* ---------------------------------------------------------------------------------------------- *)
@@ -2264,6 +2453,94 @@ Proof.
     rewrite (last_app_ne _ _ 0%N I1). split; assumption.
 Qed.
 
+(* ---- the first line of the skeleton ---- *)
+Lemma sk_head_text v r l0 rest : lines_of v = l0 :: rest ->
+  hd [] (lines_of (sk (TextElement v :: r))) = match rest with [] => l0 ++ hd [] (lines_of (sk r)) | _ => l0 end.
+Proof.
+  intros El. rewrite sk_cons, lines_of_app, El. destruct rest as [|l1 rest'].
+  - cbn [removelast last app hd]. reflexivity.
+  - rewrite (removelast_cons2 l0 (l1 :: rest') ltac:(discriminate)). reflexivity.
+Qed.
+
+Lemma is_blank_app_false l X : is_blank_line l = false -> is_blank_line (l ++ X) = false.
+Proof. unfold is_blank_line. rewrite forallb_app. intros ->. reflexivity. Qed.
+
+Lemma line_start_ok_app l X : is_blank_line l = false -> line_start_ok (l ++ X) = line_start_ok l.
+Proof.
+  intros Hnb. destruct (leading_spaces_app_nonblank l X Hnb) as (Hls & Hle & b & t & Hsk).
+  unfold line_start_ok. rewrite Hls, skipn_app, Hsk. reflexivity.
+Qed.
+
+(* a first text that starts with a space: the first line of the skeleton is not blank, is indented and starts like
+   a continuation line *)
+Lemma first_line_sk els : ml_elements els false = true -> ml_last_ok els = true ->
+  first_sp els = true -> first_line_ok els = true ->
+  is_blank_line (hd [] (lines_of (sk els))) = false /\ line_start_ok (hd [] (lines_of (sk els))) = true /\
+  leading_spaces (hd [] (lines_of (sk els))) <> 0.
+Proof.
+  intros Hs Hl Hsp Hlead. destruct els as [|[[|b t]|e] r]; try discriminate Hsp.
+  cbn [first_sp] in Hsp. apply N.eqb_eq in Hsp. subst b.
+  cbn [ml_elements] in Hs. apply andb_prop in Hs as [Hs Hr]. apply andb_prop in Hs as [_ Hv].
+  cbn [first_line_ok] in Hlead.
+  destruct (lines_of (32%N :: t)) as [|l0 rest] eqn:El; [exfalso; apply (split_lines_ne _ _ El)|].
+  assert (El0 : exists t0, l0 = 32%N :: t0).
+  { rewrite (lines_of_byte 32 t eq_refl) in El. injection El as <- _. eauto. }
+  destruct El0 as [t0 ->].
+  rewrite (sk_head_text _ r _ rest El).
+  destruct (is_blank_line (32%N :: t0)) eqn:Eb.
+  - (* the text is the indentation of a placeable *)
+    destruct rest; [|discriminate Hlead].
+    pose proof (lines_of_join _ _ _ El) as Ev. rewrite app_nil_r in Ev.
+    destruct (ml_elements_after_text r Hr) as [-> | (e & r' & -> & He & Hr')].
+    + exfalso. cbn [ml_last_ok rev app] in Hl. apply andb_prop in Hl as [H32 _]. apply negb_true_iff in H32.
+      rewrite Ev in H32. unfold is_blank_line in Eb. rewrite forallb_forall in Eb.
+      specialize (Eb _ (last_in (32%N :: t0) 0%N ltac:(discriminate))). rewrite N.eqb_sym in Eb. congruence.
+    + rewrite sk_cons. change ([123%N] ++ sk r') with (123%N :: sk r'). rewrite (lines_of_byte 123 _ eq_refl). cbn [hd].
+      set (h := hd [] (lines_of (sk r'))).
+      pose proof (leading_spaces_app_blank (32%N :: t0) (123%N :: h) Eb) as Hls. cbn [leading_spaces] in Hls.
+      change (N.eqb 123 32) with false in Hls. cbv iota in Hls. rewrite Nat.add_0_r in Hls.
+      split; [|split].
+      * unfold is_blank_line. rewrite forallb_app. cbn [forallb]. change (N.eqb 32 123) with false. cbn [andb]. apply andb_false_r.
+      * unfold line_start_ok. unfold bytes in *. rewrite Hls. rewrite skipn_app_len. reflexivity.
+      * unfold bytes in *. rewrite Hls. cbn [length]. discriminate.
+  - assert (Hgoal : forall X, is_blank_line ((32%N :: t0) ++ X) = false /\ line_start_ok ((32%N :: t0) ++ X) = true /\
+                              leading_spaces ((32%N :: t0) ++ X) <> 0).
+    { intros X. split; [apply is_blank_app_false, Eb|]. split; [rewrite (line_start_ok_app _ X Eb); exact Hlead|].
+      cbn [app leading_spaces]. rewrite N.eqb_refl. discriminate. }
+    destruct rest; [apply Hgoal | rewrite <- (app_nil_r (32%N :: t0)); apply Hgoal].
+Qed.
+
+Lemma first_line_sk_conv els : first_sp els = true ->
+  is_blank_line (hd [] (lines_of (sk els))) = false -> line_start_ok (hd [] (lines_of (sk els))) = true ->
+  first_line_ok els = true.
+Proof.
+  intros Hsp Hnb Hok. destruct els as [|[[|b t]|e] r]; try discriminate Hsp. cbn [first_line_ok].
+  destruct (lines_of (b :: t)) as [|l0 rest] eqn:El; [reflexivity|].
+  rewrite (sk_head_text _ r _ rest El) in Hnb, Hok.
+  destruct (is_blank_line l0) eqn:Eb.
+  - destruct rest; [reflexivity|]. congruence.
+  - destruct rest; [rewrite (line_start_ok_app l0 _ Eb) in Hok; exact Hok | exact Hok].
+Qed.
+
+Lemma first_sp_block_ok els : first_sp els = true -> first_byte_ok_for_block (Pattern els) = true.
+Proof.
+  destruct els as [|[[|b t]|e] r]; try discriminate. cbn [first_sp]. intros H. apply N.eqb_eq in H. subst b. reflexivity.
+Qed.
+
+(* the first byte and the indentation of the first line *)
+Lemma first_indent_sp els : els <> [] -> ml_elements els false = true -> ml_first_nolf els = true ->
+  (Nat.eqb (first_indent (Pattern els)) 0 = negb (first_sp els)).
+Proof.
+  intros Hne Hs Hnolf. unfold first_indent. fold (sk els).
+  destruct els as [|[[|b t]|e] r]; [congruence| | |].
+  - cbn [ml_elements] in Hs. apply andb_prop in Hs as [Hs _]. apply andb_prop in Hs as [_ Hv].
+    pose proof (ml_text_ne _ _ Hv) as Hvne. congruence.
+  - cbn [ml_first_nolf] in Hnolf. apply negb_true_iff in Hnolf. cbn [first_sp].
+    rewrite sk_cons. cbn [app]. rewrite (lines_of_byte b _ Hnolf). cbn [hd leading_spaces].
+    destruct (N.eqb b 32); reflexivity.
+  - rewrite sk_cons. cbn [app]. rewrite (lines_of_byte 123 _ eq_refl). reflexivity.
+Qed.
+
 Lemma min_list_zero l : In 0 l -> min_list l = Some 0.
 Proof.
   induction l as [|x r IH]; intros H; [destruct H|]. cbn [min_list]. destruct H as [-> | H].
@@ -2278,49 +2555,215 @@ Proof.
   apply IH, H2.
 Qed.
 
-Theorem ml_pattern_wf els : ml_pattern (Pattern els) = true -> wf_value (Pattern els) = true.
+(* ---- lines of a text with a line feed ---- *)
+Lemma first_lf v : existsb (N.eqb 10) v = true -> exists a b, v = a ++ 10%N :: b /\ existsb (N.eqb 10) a = false.
 Proof.
-  intros Hp. destruct (ml_pattern_parts els Hp) as (Hne & Hs & Hf & Hl & Hhit).
+  induction v as [|x v IH]; intros H; [discriminate H|]. cbn [existsb] in H. destruct (N.eqb 10 x) eqn:E.
+  - apply N.eqb_eq in E. subst x. exists [], v. split; reflexivity.
+  - cbn [orb] in H. destruct (IH H) as (a & b & -> & Ha). exists (x :: a), b. split; [reflexivity|].
+    cbn [existsb]. rewrite E, Ha. reflexivity.
+Qed.
+
+Lemma split_lines_lf a b : existsb (N.eqb 10) a = false -> forall cur,
+  split_lines (a ++ 10%N :: b) cur = (rev cur ++ a) :: split_lines b [].
+Proof.
+  induction a as [|x a IH]; intros Ha cur.
+  - cbn [app split_lines]. rewrite N.eqb_refl, app_nil_r. reflexivity.
+  - cbn [existsb] in Ha. apply orb_false_elim in Ha as [Hx Ha]. cbn [app split_lines]. rewrite N.eqb_sym, Hx.
+    rewrite (IH Ha (x :: cur)). cbn [rev]. rewrite <- app_assoc. reflexivity.
+Qed.
+
+Lemma lines_of_lf a b : existsb (N.eqb 10) a = false -> lines_of (a ++ 10%N :: b) = a :: lines_of b.
+Proof. intros Ha. unfold lines_of. rewrite (split_lines_lf a b Ha []). reflexivity. Qed.
+
+Lemma last_in_list' {X} (l : list X) d : l <> [] -> In (last l d) l.
+Proof.
+  induction l as [|a l IH]; [congruence|]. intros _. destruct l as [|b l]; [left; reflexivity|].
+  right. apply IH. discriminate.
+Qed.
+
+Lemma min_list_in l m : min_list l = Some m -> In m l.
+Proof.
+  revert m. induction l as [|x r IH]; intros m H; [discriminate H|]. cbn [min_list] in H.
+  destruct (min_list r) as [m'|] eqn:E.
+  - injection H as <-. destruct (Nat.min_spec x m') as [[_ ->] | [_ ->]]; [left; reflexivity | right; apply IH; reflexivity].
+  - injection H as <-. left; reflexivity.
+Qed.
+
+Lemma min_list_none l : min_list l = None -> l = [].
+Proof. destruct l as [|x r]; [reflexivity|]. cbn [min_list]. destruct (min_list r); discriminate. Qed.
+
+Lemma lines_single s l : lines_of s = [l] -> existsb (N.eqb 10) s = false.
+Proof.
+  intros H. destruct (existsb (N.eqb 10) s) eqn:E; [|reflexivity]. exfalso.
+  destruct (first_lf s E) as (a & b & -> & Ha). rewrite (lines_of_lf a b Ha) in H. injection H as _ H.
+  apply (split_lines_ne b [] H).
+Qed.
+
+Lemma has_lf_sk els : existsb (N.eqb 10) (sk els) = false -> has_lf els = false.
+Proof.
+  induction els as [|el r IH]; intros H; [reflexivity|]. rewrite sk_cons, existsb_app in H. apply orb_false_elim in H as [H1 H2].
+  cbn [has_lf existsb]. fold (has_lf r). rewrite (IH H2), orb_false_r. destruct el as [v|e]; [exact H1 | reflexivity].
+Qed.
+
+(* the indentation that Render.v looks at (rest_indent, on the skeleton) is the one of the class (own_indents) *)
+Lemma rest_indent_own els : ml_elements els false = true ->
+  rest_indent (Pattern els) = min_list (own_indents els).
+Proof.
+  intros Hs. destruct (skeleton_rest els false Hs) as [_ R2]. unfold rest_indent. fold (sk els).
+  unfold nonblank_lines in R2. unfold bytes in *. rewrite R2. reflexivity.
+Qed.
+
+(* a value that Render.v may print inline has a continuation line at indentation 0, or a single line *)
+Lemma needs_block_hit els : els <> [] -> ml_elements els false = true -> ml_last_ok els = true ->
+  needs_block (Pattern els) = false ->
+  has_lf els = false \/ existsb (Nat.eqb 0) (own_indents els) = true.
+Proof.
+  intros Hne Hs Hl Hnb. unfold needs_block in Hnb. apply orb_false_elim in Hnb as [_ Hnb]. rewrite (rest_indent_own els Hs) in Hnb.
+  destruct (min_list (own_indents els)) as [m|] eqn:Em.
+  - right. apply negb_false_iff, Nat.eqb_eq in Hnb. subst m. apply existsb_exists. exists 0.
+    split; [apply min_list_in, Em | reflexivity].
+  - left. apply has_lf_sk.
+    destruct (sk_last els false Hne Hs Hl) as (Hsk1 & Hsk2 & Hsk3).
+    destruct (last_line_of (sk els) Hsk1 Hsk3) as [Hll Hlast].
+    destruct (skeleton_rest els false Hs) as [_ R2].
+    destruct (lines_of (sk els)) as [|l0 rest] eqn:El; [exfalso; apply Hll; reflexivity|].
+    destruct rest as [|l1 rest']; [apply (lines_single _ _ El)|]. exfalso.
+    pose proof (min_list_none _ Em) as Enone. rewrite <- R2 in Enone. cbn [tl] in Enone.
+    assert (Hnbl : is_blank_line (last (l0 :: l1 :: rest') []) = false).
+    { unfold is_blank_line. apply not_true_is_false. intros Hall.
+      rewrite forallb_forall in Hall. specialize (Hall _ (last_in _ 0%N Hll)). rewrite Hlast in Hall.
+      rewrite N.eqb_sym in Hall. congruence. }
+    assert (Hin : In (last (l0 :: l1 :: rest') []) (l1 :: rest')).
+    { rewrite (last_cons2 l0 (l1 :: rest') [] ltac:(discriminate)). apply last_in_list'. discriminate. }
+    assert (Hin2 : In (last (l0 :: l1 :: rest') []) (nonblank_lines (l1 :: rest'))).
+    { apply filter_In. split; [exact Hin | rewrite Hnbl; reflexivity]. }
+    apply (in_map leading_spaces) in Hin2. unfold bytes in *. rewrite Enone in Hin2. destruct Hin2.
+Qed.
+
+Lemma render_value_wl_layout ind els cs : wl_pattern (Pattern els) = true -> 1 <= ind ->
+  exists V cs', render_value ind (Pattern els) cs = (V, cs') /\ wl_value_layout els V.
+Proof.
+  intros Hp Hind. destruct (wl_pattern_parts els Hp) as (Hne & Hv & Hnolf & Hl & Hcase).
+  unfold render_value, render_value_with. unfold rbind at 1. destruct (choose 3 cs) as [block cs1].
+  destruct ((Nat.eqb block 2 || needs_block (Pattern els)) && first_byte_ok_for_block (Pattern els)) eqn:Eb.
+  - apply andb_prop in Eb as [_ Hok].
+    destruct (blank_inline_opt_spec cs1) as [k [cs2 E2]]. rewrite (rbind_eq _ _ _ _ _ E2).
+    destruct (eol_spec' cs2) as [x [cs3 [E3 Hx]]]. rewrite (rbind_eq _ _ _ _ _ E3).
+    unfold rbind at 1. destruct (choose 2 cs3) as [blanks cs4].
+    assert (Hb : exists c BL cs5,
+               (if Nat.eqb blanks 1 then x0 <~ eol ;; rret (sp 2 ++ x0) else rret []) cs4 = (BL, cs5) /\
+               blank_lines_of c BL).
+    { destruct (Nat.eqb blanks 1).
+      - destruct (eol_spec' cs4) as [y [cs5 [E5 Hy]]]. rewrite (rbind_eq _ _ _ _ _ E5).
+        exists 1, (sp 2 ++ y), cs5. split; [reflexivity|].
+        replace (sp 2 ++ y) with (sp 2 ++ y ++ []) by (rewrite app_nil_r; reflexivity).
+        constructor; [exact Hy | constructor].
+      - exists 0, [], cs4. split; [reflexivity | constructor]. }
+    destruct Hb as [c [BL [cs5 [E5 HBL]]]]. rewrite (rbind_eq _ _ _ _ _ E5).
+    unfold rbind at 1. destruct (choose 3 cs5) as [extra cs6].
+    rewrite render_pattern_inline_els.
+    destruct (render_els_ml_layout (ind + extra) els false cs6 Hv) as [L [cs7 [E7 HL]]]. rewrite (rbind_eq _ _ _ _ _ E7).
+    eexists. exists cs7. split; [reflexivity|].
+    unfold cat. cbn [concat]. rewrite app_nil_r.
+    apply (wvl_block els k x c BL (ind + extra) L); try assumption. nlia.
+  - assert (Hhit : ml_first_ok els = true /\ (has_lf els = false \/ existsb (Nat.eqb 0) (own_indents els) = true)).
+    { destruct Hcase as [[Hf Hc] | (Hsp & _ & _)].
+      - split; [exact Hf|]. destruct Hc as [H | [H | Hok]]; [left; exact H | right; exact H|].
+        rewrite Hok, andb_true_r in Eb. apply orb_false_elim in Eb as [_ Hnb].
+        apply (needs_block_hit els Hne Hv Hl Hnb).
+      - exfalso. rewrite (first_sp_block_ok els Hsp), andb_true_r in Eb. apply orb_false_elim in Eb as [_ Hnb].
+        unfold needs_block in Hnb. apply orb_false_elim in Hnb as [Hnb _]. apply negb_false_iff in Hnb.
+        rewrite (first_indent_sp els Hne Hv Hnolf), Hsp in Hnb. discriminate Hnb. }
+    destruct Hhit as [Hf1 Hhit].
+    destruct (blank_inline_opt_spec cs1) as [k [cs2 E2]]. rewrite (rbind_eq _ _ _ _ _ E2).
+    unfold rbind at 1. destruct (choose 3 cs2) as [extra cs3].
+    rewrite render_pattern_inline_els.
+    destruct (render_els_ml_layout (ind + extra) els false cs3 Hv) as [L [cs4 [E4 HL]]]. rewrite (rbind_eq _ _ _ _ _ E4).
+    eexists. exists cs4. split; [reflexivity|]. apply (wvl_inline els k (ind + extra) L Hf1 Hhit); [nlia | exact HL].
+Qed.
+
+Theorem wl_pattern_wf els : wl_pattern (Pattern els) = true -> wf_value (Pattern els) = true.
+Proof.
+  intros Hp. destruct (wl_pattern_parts els Hp) as (Hne & Hs & Hnolf & Hl & Hcase).
   destruct (ml_elements_wf els false Hs) as [W1 W2].
   unfold wf_value. rewrite wf_pattern_els, lines_ok_pattern_els, W1, W2.
   replace (match els with [] => true | _ :: _ => false end) with false by (destruct els; [congruence | reflexivity]).
   cbn [negb andb]. rewrite andb_true_r.
-  unfold wf_pattern_lines. fold (sk els).
-  destruct (sk_first els Hne Hs Hf) as (b & t & Esk & Hb32 & Hb10).
+  unfold wf_pattern_lines_top. fold (sk els).
   destruct (sk_last els false Hne Hs Hl) as (Hsk1 & Hsk2 & Hsk3).
   destruct (skeleton_rest els false Hs) as [R1 R2].
   destruct (last_line_of (sk els) Hsk1 Hsk3) as [Hll Hlast].
+  (* the first line *)
+  assert (Hfirst : is_blank_line (hd [] (lines_of (sk els))) = false /\
+                   (if Nat.eqb (leading_spaces (hd [] (lines_of (sk els)))) 0
+                    then match min_list (own_indents els) with
+                         | Some m => Nat.eqb m 0 || first_byte_ok_for_block (Pattern els)
+                         | None => true
+                         end
+                    else line_start_ok (hd [] (lines_of (sk els))) &&
+                         match min_list (own_indents els) with Some m => Nat.eqb m 0 | None => false end) = true).
+  { destruct Hcase as [[Hf Hhit] | (Hsp & Hlead & Hhit)].
+    - destruct (sk_first els Hne Hs Hf) as (b & t & Esk & Hb32 & Hb10).
+      rewrite Esk, (lines_of_byte b t Hb10). cbn [hd is_blank_line forallb leading_spaces]. rewrite N.eqb_sym, Hb32. cbn [andb Nat.eqb].
+      split; [reflexivity|].
+      destruct Hhit as [Hno | [Hhit | Hok]].
+      + rewrite (own_indents_no_lf els Hno). reflexivity.
+      + rewrite (min_list_zero (own_indents els)); [reflexivity|].
+        apply existsb_exists in Hhit as (x & Hin & Hx). apply Nat.eqb_eq in Hx. subst x. exact Hin.
+      + rewrite Hok. destruct (min_list (own_indents els)); [apply orb_true_r | reflexivity].
+    - destruct (first_line_sk els Hs Hl Hsp Hlead) as (F1 & F2 & F3). split; [exact F1|].
+      apply Nat.eqb_neq in F3. rewrite F3, F2. cbn [andb].
+      rewrite (min_list_zero (own_indents els)); [reflexivity|].
+      apply existsb_exists in Hhit as (x & Hin & Hx). apply Nat.eqb_eq in Hx. subst x. exact Hin. }
+  destruct Hfirst as [Hb1 Hb2].
   destruct (lines_of (sk els)) as [|l0 rest] eqn:El; [exfalso; apply Hll; reflexivity|].
-  cbn [tl] in R1, R2.
-  assert (El0 : exists t0, l0 = b :: t0).
-  { rewrite Esk, (lines_of_byte b t Hb10) in El. injection El as <- _. eauto. }
-  destruct El0 as [t0 ->].
-  assert (Hb1 : is_blank_line (b :: t0) = false) by (cbn [is_blank_line forallb]; rewrite N.eqb_sym, Hb32; reflexivity).
-  assert (Hb2 : leading_spaces (b :: t0) = 0) by (cbn [leading_spaces]; rewrite Hb32; reflexivity).
-  unfold bytes in *. remember (last ((b :: t0) :: rest) []) as ll eqn:Ell.
+  cbn [tl] in R1, R2. cbn [hd] in Hb1, Hb2.
+  unfold bytes in *. remember (last (l0 :: rest) []) as ll eqn:Ell.
   assert (Hb3 : is_blank_line ll = false).
   { unfold is_blank_line. apply not_true_is_false. intros Hall.
     rewrite forallb_forall in Hall. specialize (Hall _ (last_in _ 0%N Hll)). rewrite Hlast in Hall.
     rewrite N.eqb_sym in Hall. congruence. }
   assert (Hb4 : leading_spaces (rev ll) = 0).
   { rewrite (rev_last _ Hll). cbn [leading_spaces]. rewrite Hlast, Hsk2. reflexivity. }
-  rewrite Hb1, Hb2, Hb3, Hb4. cbn [negb andb Nat.eqb].
+  rewrite Hb1, Hb3, Hb4. cbn [negb andb Nat.eqb].
   assert (F1 : forallb (fun l => is_blank_line l || line_start_ok l) rest = true).
   { rewrite forallb_forall in *. intros l Hin. specialize (R1 l Hin). unfold pline in R1. apply andb_prop in R1 as [R1 _]. exact R1. }
   assert (F2 : forallb (fun l => negb (is_blank_line l) || Nat.eqb (length l) 0) rest = true).
   { rewrite forallb_forall in *. intros l Hin. specialize (R1 l Hin). unfold pline in R1. apply andb_prop in R1 as [_ R1]. exact R1. }
   unfold bytes in *. rewrite F1, F2. cbn [andb]. unfold nonblank_lines in R2. unfold bytes in *. rewrite R2.
-  destruct Hhit as [Hno | Hhit].
-  - rewrite (own_indents_no_lf els Hno). reflexivity.
-  - rewrite (min_list_zero (own_indents els)); [reflexivity|].
-    apply existsb_exists in Hhit as (x & Hin & Hx). apply Nat.eqb_eq in Hx. subst x. exact Hin.
+  exact Hb2.
 Qed.
+
+Theorem ml_pattern_wf els : ml_pattern (Pattern els) = true -> wf_value (Pattern els) = true.
+Proof. intros Hp. apply wl_pattern_wf, ml_wl_pattern, Hp. Qed.
 
 Theorem ml_resource_wf t : ml_resource t = true -> wf_resource t = true.
 Proof.
   intros Ht. apply (g_resource_wf ml_pok); [|rewrite ml_resource_g; exact Ht].
-  intros els Hp. apply ml_pattern_wf, Hp.
+  intros els Hp. apply wl_pattern_wf, Hp.
 Qed.
+
+(* C02 on the fragment: the printed text parses, without errors, to a tree that joins to the printed one;
+   first with all that is known of the parser's tree *)
+Theorem parse_render_ml_split cs t : ml_resource t = true -> last_comment_ok t = true ->
+  exists t', parse (render cs t) = Done (t', []) /\ Forall2 (rel_entry srel) t' t.
+Proof.
+  intros Ht Hlast. apply (g_parse_render_rel ml_pok wl_value_layout srel cs t).
+  - intros ind els cs0 Hp Hind. apply (render_value_wl_layout ind els cs0 Hp Hind).
+  - intros bs els V T used c nx p n Hp. apply (get_pattern_wl bs els V T used c nx p n Hp).
+  - intros els V Hp. apply (wl_value_layout_strip els V Hp).
+  - rewrite ml_resource_g. exact Ht.
+  - exact Hlast.
+Qed.
+
+Theorem parse_render_ml cs t : ml_resource t = true -> last_comment_ok t = true ->
+  exists t', parse (render cs t) = Done (t', []) /\ map join_entry t' = t.
+Proof.
+  intros Ht Hlast. destruct (parse_render_ml_split cs t Ht Hlast) as (t' & E & Hrel). exists t'. split; [exact E|].
+  apply jrel_entries. apply (rel_entries_mono srel jrel t' t); [intros x y [H _]; exact H | exact Hrel].
+Qed.
+
 
 (* ---- the patterns of the fragment are in joined form ---- *)
 Lemma ml_elements_join els prev : ml_elements els prev = true -> join_elements els = els.
@@ -2338,6 +2781,12 @@ Qed.
 Lemma ml_pattern_join p : ml_pattern p = true -> join_pattern p = p.
 Proof.
   destruct p as [els]. intros Hp. destruct (ml_pattern_parts els Hp) as (_ & Hs & _).
+  rewrite join_pattern_els, (ml_elements_join_map els false Hs), (ml_elements_join els false Hs). reflexivity.
+Qed.
+
+Lemma wl_pattern_join p : wl_pattern p = true -> join_pattern p = p.
+Proof.
+  destruct p as [els]. intros Hp. destruct (wl_pattern_parts els Hp) as (_ & Hs & _).
   rewrite join_pattern_els, (ml_elements_join_map els false Hs), (ml_elements_join els false Hs). reflexivity.
 Qed.
 
